@@ -7,6 +7,7 @@
 #include <string>
 #include <vector>
 #include <memory>
+#include <csetjmp>
 
 namespace vf {
 
@@ -243,6 +244,7 @@ const std::vector<NodeFactory>& factories();
 // assertion / break handler state (per thread: workers are single-threaded processes, but keep it tidy)
 struct AssertHit { std::string expr, file; int line = 0; };
 extern thread_local std::vector<AssertHit>* g_assertSink;
+extern thread_local std::jmp_buf* g_assertJump;   // armed during a run: the first assertion hit ends the run (the library would continue into undefined behaviour)
 extern thread_local long g_libAllocs;     // allocations observed while inside a library call
 extern thread_local int  g_inLibrary;     // >0 while executing library code on behalf of an API call
 
